@@ -65,6 +65,7 @@ struct Scn {
     std::vector<std::string> later_stages; // mode 0: stages deeper than the expected one (must never be what is delivered)
     std::string label_extra;
     bool has2 = false, second_zlib = false; std::string expect2; // a second, pipelined response on the same connection with another coding (the decompressor must be set up afresh)
+    long lzma_mem = -1;                  // htp_config_set_lzma_memlimit (-1: default)
     unsigned long long expect_total = 0; // mode 3: only the number of delivered bytes is compared (multi-megabyte bodies)
     long clock_sec = 0;                  // mode 3: the instant the frozen clock shows during the run
     int pre = 0;                         // body-less exchanges in front (HEAD / 304 / 204 answered with a Content-Encoding field): the decompressor they set up must not leak into, or out of, the next response
@@ -78,6 +79,7 @@ static std::string scn_text(const Scn &s) {
     for (auto &l : s.later_stages) t += "later " + H(l) + "\n";
     if (s.has2) t += "expect2 " + H(s.expect2) + " " + std::to_string(s.second_zlib) + "\n";
     if (s.pre) t += "pre " + std::to_string(s.pre) + "\n";
+    if (s.lzma_mem >= 0) t += "lzmem " + std::to_string(s.lzma_mem) + "\n";
     if (s.mode == 3) t += "total " + std::to_string(s.expect_total) + " " + std::to_string(s.clock_sec) + "\n";
     t += "cuts"; for (size_t c : s.cuts) t += " " + std::to_string(c); t += "\n";
     const std::string &w = s.dir ? s.rq : s.rs; t += "# head \"" + vc::esc(w.substr(0, s.body_at), 400) + "\" body " + std::to_string(s.body_len) + " bytes, expected delivery " + std::to_string(s.expect.size()) + " bytes\n";
@@ -87,8 +89,8 @@ static std::string scn_text(const Scn &s) {
 extern "C" long g_verif_clock_sec;
 struct Obs { int first = 1; int dir; bool keep; std::string got; unsigned long long total = 0; long limit; std::string bound_fail; int body_tx = 0; std::string got2; int body_tx2 = 0; size_t pre_body = 0; };
 static std::pair<std::string, std::string> run_scn(const Scn &s) {
-    vdrv::Config c; c.personality = s.pers; c.req_decomp = s.dir; c.res_decomp = 1; c.layers = s.layer_limit; c.lzma_layers = s.lzma_layers; c.bomb = s.bomb;
-    vdrv::Plan p; vdrv::Options o; o.dump = false; o.keep_body = false; o.keep_data = s.mode < 2; o.max_keep = 1 << 16; o.logs = true;
+    vdrv::Config c; c.personality = s.pers; c.req_decomp = s.dir; c.res_decomp = 1; c.lzma_mem = s.lzma_mem; c.layers = s.layer_limit; c.lzma_layers = s.lzma_layers; c.bomb = s.bomb;
+    vdrv::Plan p; vdrv::Options o; o.dump = false; o.keep_body = false; o.keep_data = s.mode < 2; o.max_keep = 1 << 22; o.logs = true;
     struct ClockGuard { long old; ClockGuard(long v) : old(g_verif_clock_sec) { if (v) g_verif_clock_sec = v; } ~ClockGuard() { g_verif_clock_sec = old; } } clock_guard(s.mode == 3 ? s.clock_sec : 0);
     vdrv::Session ss(c, p, o);
     Obs ob; ob.dir = s.dir; ob.keep = s.mode < 2; ob.limit = s.bomb < 0 ? 1048576 : s.bomb; ob.first = 1 + s.pre; ss.user = &ob;
@@ -186,6 +188,9 @@ static Scn gen_fidelity() {
     static const int LL[] = {-2, -2, -2, 1, 2, 3, 0}; s.layer_limit = s.dir == 0 ? LL[rcx::range(0, 6)] : -2;
     int L = s.layer_limit == -2 ? 2 : s.layer_limit; int applied = nl; if (L != 0 && applied > L) applied = L;
     s.expect = stages[applied]; for (int j = applied + 1; j <= nl; j++) s.later_stages.push_back(stages[j]);
+    // LZMA whose announced dictionary (1 MiB) exceeds the configured memory limit while the whole output stays below it: the dictionary buffer grows up to the limit and that is enough
+    if (nl == 1 && kinds[0] == K_LZMA && rcx::chance(1, 3)) { static const long ML[] = {70000, 200000, 300000}; s.lzma_mem = ML[rcx::range(0, 2)]; size_t n = (size_t)(s.lzma_mem * rcx::range(30, 90) / 100); uint64_t x = (uint64_t)rcx::range(1, 1 << 30); std::string pl; pl.reserve(n);
+        for (size_t i = 0; i < n; i++) { x = vc::mix(x + i); pl += (char)((i / 97) % 3 ? (x & 0xff) : 'a' + (int)(x % 5)); } stages[1] = pl; stages[0] = lzpack(pl, 1u << 20); s.expect = stages[1]; s.later_stages.clear(); s.label_extra = "_lzma_dictionary_over_memlimit"; }
     // LZMA switched off (htp_config_set_lzma_layers(cfg, 0)): a body announced as "lzma" alone is not decoded, in either direction
     if (nl == 1 && kinds[0] == K_LZMA && rcx::chance(1, 3)) { s.lzma_layers = 0; s.expect = stages[0]; s.later_stages.clear(); s.later_stages.push_back(stages[1]); s.label_extra = "_lzma_switched_off"; }
     int framing = rcx::range(0, s.dir == 0 ? 2 : 1);
@@ -323,6 +328,7 @@ static int replay(const std::string &path) {
         if (l.rfind("c07 ", 0) == 0) { int mp = 0; sscanf(l.c_str() + 4, "%d %d %d %d %d %ld %zu %zu %d", &s.pers, &s.dir, &s.mode, &s.layer_limit, &s.lzma_layers, &s.bomb, &s.body_at, &s.body_len, &mp); s.multi_piece_framing = mp; }
         else if (l.rfind("label ", 0) == 0) s.label = l.substr(6); else if (l.rfind("req ", 0) == 0) s.rq = U(l.substr(4)); else if (l.rfind("res ", 0) == 0) s.rs = U(l.substr(4)); else if (l.rfind("expect ", 0) == 0) s.expect = U(l.substr(7)); else if (l.rfind("later ", 0) == 0) s.later_stages.push_back(U(l.substr(6))); else if (l.rfind("expect2 ", 0) == 0) { s.has2 = true; std::string r = l.substr(8); size_t sp = r.find(' '); s.expect2 = U(r.substr(0, sp)); if (sp != std::string::npos) s.second_zlib = atoi(r.c_str() + sp + 1) != 0; }
         else if (l.rfind("pre ", 0) == 0) s.pre = atoi(l.c_str() + 4);
+        else if (l.rfind("lzmem ", 0) == 0) s.lzma_mem = atol(l.c_str() + 6);
         else if (l.rfind("total ", 0) == 0) sscanf(l.c_str() + 6, "%llu %ld", &s.expect_total, &s.clock_sec);
         else if (l.rfind("cuts", 0) == 0) { const char *c = l.c_str() + 4; char *end; for (;;) { long n = strtol(c, &end, 10); if (end == c) break; s.cuts.push_back((size_t)n); c = end; } }
     }
